@@ -59,6 +59,22 @@ CHECKS["C12"] = dict(
     note="limits themselves are not decided by TLC (no reals); exact algebraic forms are",
     technique="TLA+ residual / fixed-point / explicit-step predicates evaluated by TLC on lifted solver results")
 
+CHECKS["C09"] = dict(
+    text="FVLifecycle.tla models objects, sharing, dirty bits, caches and ghost freshness with one action per public call, written like the code. TLC checks all histories to a depth (3 variables, 3 BC objects, symmetry-reduced, about 1e6 states in the thorough tier) for: a solve never reads a missing or (for unshared BC objects) stale cache, ghost layer and cache fresh after solve/apply, explicit result usable, copies/operator results independent, clean flags imply fresh caches. The unrestricted freshness invariant fails only through a shared BC object - TLC's counterexample is replayed into real objects on 7 grid classes (known finding). TLC -simulate behaviours over the full alphabet are replayed step by step into real objects; every solvePDE is compared bit-for-bit with the solve of a freshly constructed variable, freshness is observed semantically after every step.",
+    ref="DESIGN.md 5/C09",
+    note="bounded pools and depth; manual flag resets outside the alphabet; simulated behaviours are seeded samples beyond the exhaustive depth",
+    technique="TLA+ lifecycle model checked by TLC (exhaustive + simulate) and replayed into the real objects with a fresh-start oracle")
+CHECKS["C14"] = dict(
+    text="Object level: FVLifecycle's Copy/Arith/funceval actions (deep copy of the left-most operand's BC object, fresh ghost layer, disjoint storage) are an invariant of the TLC-checked model and are replayed into real objects on 7 grid classes: results share no storage / BC object / BC arrays with operands, operands stay byte-identical, result BCs equal the left operand's and its boundary values are consistent with them, copy() is equal and independent. Value level: the operator table is enumerated and each request executed on CellVariables and FaceVariables.",
+    ref="DESIGN.md 5/C14",
+    note="arrays on the right are required for CellVariable only; expression depth bounded",
+    technique="TLA+ lifecycle model (TLC) + behaviour replay with byte snapshots; TLC-enumerated operator table")
+CHECKS["C15"] = dict(
+    text="FVLifecycle gives every Build / SolveMatrix / SolveExplicit action the frame condition UNCHANGED on all inputs and SolvePDE changes only its variable; TLC -simulate behaviours of a builder-heavy configuration (15 builder kinds) are replayed on 7 grid classes and the frame condition is observed by byte snapshots of everything reachable (mesh arrays, value arrays, BC arrays and flags, cached CSR data), every builder is called twice (bit-identical results) and returned buffers are tested for aliasing with mesh storage and inputs.",
+    ref="DESIGN.md 5/C15",
+    note="seeded behaviours; aliasing tested with numpy.shares_memory",
+    technique="TLA+ frame conditions (TLC) + behaviour replay with byte snapshots and aliasing probes")
+
 NOT_APPLICABLE = {
  "C02": "asymptotic convergence order under refinement: no reals/limits in TLA+, exact lifting does not survive solves on refined grids (DESIGN 8)",
 }
